@@ -351,6 +351,14 @@ Error apply_step(BaseEmitter& e, CodeHolder& code, const Program& p, size_t i, A
   return err;
 }
 
+void undo_failed_step(const Program& p, size_t i, ApplyCtx& ctx) {
+  const Step& s = p.steps[i];
+  if (s.kind == StepKind::kNewLabel && !ctx.labels.empty()) ctx.labels.pop_back();
+  if (s.kind == StepKind::kNewSection && ctx.sections.size() > 1) ctx.sections.pop_back();
+  if (!ctx.results.empty()) ctx.results.pop_back();
+  if (ctx.first_error_step == i) ctx.first_error_step = SIZE_MAX;
+}
+
 Error apply_range(BaseEmitter& e, CodeHolder& code, const Program& p, size_t from, size_t to, ApplyCtx& ctx, bool stop_on_error) {
   Error first = Error::kOk;
   for (size_t i = from; i < to && i < p.steps.size(); i++) {
